@@ -1,7 +1,7 @@
 """C15 — ToUnicode CMaps decode text as the CMap defines (DESIGN §4 C15)."""
 import re
 import lib, inv, guard
-from mir import op_place, AnchorLost
+from mir import op_place, op_const, const_int, AnchorLost
 
 LEVEL = dict(
     level="other",
@@ -79,13 +79,29 @@ def run(ctx):
     consts["map array length"] = m.group(1) if m else "?"
     for fn in ("ToUnicodeCMap::get", "ToUnicodeCMap::put"):
         b = F.fn(fn)
-        cs = [b.oname(b.term(bi)["d"], 3) for bi in range(b.n) if b.term(bi)["k"] == "switch"]
-        mm2 = [re.match(r"^Gt\(code_len,(\d+)\)$", c) for c in cs]
+        # the code length is the u8 parameter; parameters are named by position, so a rename does not matter
+        lenarg = [i for i in range(1, b.argc + 1) if b.lty(i) == "u8"]
+        with b.alpha(args=True):
+            cs = [b.oname(b.term(bi)["d"], 3) for bi in range(b.n) if b.term(bi)["k"] == "switch"]
+        mm2 = [re.match(r"^Gt\(arg%d,(\d+)\)$" % (lenarg[0] if len(lenarg) == 1 else 0), c) for c in cs]
         consts["%s bound" % fn] = [x.group(1) for x in mm2 if x][0] if any(mm2) else "?"
     e = F.fn("Encoding::bytes_to_string")
-    cs = [e.oname(e.term(bi)["d"], 3) for bi in range(e.n) if e.term(bi)["k"] == "switch"]
-    mm3 = [re.match(r"^Eq\(bytes_in_considered_code,(\d+)\)$", c) for c in cs]
-    consts["bytes_to_string reset"] = [x.group(1) for x in mm3 if x][0] if any(mm3) else "?"
+    # the running code length: the local passed as the length argument of ToUnicodeCMap::get
+    getc = lib.local_calls(F, e, "ToUnicodeCMap::get")
+    lenloc = None
+    if len(getc) == 1:
+        r = lib.origin_local(F, e, getc[0].args[2])
+        lenloc = r[1] if r is not None and r[0] is e and not r[2] else None
+    resets = []
+    for bi in range(e.n):
+        t = e.term(bi)
+        if t["k"] != "switch" or t["dty"] != "bool":
+            continue
+        p = op_place(t["d"])
+        d = e.single_def(p["l"]) if p is not None and not p["p"] else None
+        if d and d[2] == "rv" and d[3]["k"] == "bin" and d[3]["op"] == "Eq" and lib.switch_on_operand(e, d[3]["a"], lenloc) and op_const(d[3]["b"]) is not None:
+            resets.append(str(const_int(op_const(d[3]["b"]))))
+    consts["bytes_to_string reset"] = resets[0] if len(resets) == 1 else "?"
     ok = consts["parser many_m_n max"] == "4" and consts["parser zip range"] == "Range::Range{0,4}" and consts["map array length"] == "4" and \
          consts["ToUnicodeCMap::get bound"] == "4" and consts["ToUnicodeCMap::put bound"] == "4" and consts["bytes_to_string reset"] == "4"
     ctx.ob("R-TABLE", "max-code-length-agrees", ok, "every place uses 4 as the maximum code length: %s" % consts, sc.where(),
@@ -94,7 +110,7 @@ def run(ctx):
     ctx.ob("R-TABLE", "big-endian-code", len(pw) == 1 and any((c.fn or "").endswith("Iterator::rev") for c in sc.calls), "source codes are big-endian: 256^i over the reversed bytes", sc.where(),
            what="source codes are no longer assembled big-endian")
     # 6. code lengths tried in increasing order
-    ups = __import__("term").counter_updates(e, set(range(e.n)), "bytes_in_considered_code")
+    ups = [u for u in __import__("term").counter_updates(e, set(range(e.n)), None) if lenloc is not None and u[3] == e.pname({"l": lenloc, "p": []}, 2)]
     ctx.ob("R-ORDER", "lengths-tried-increasing", len(ups) == 1 and ups[0][1] == "Add" and ups[0][2] == 1, "the candidate code grows by one byte per step and is looked up at each length", e.where(),
            what="bytes_to_string no longer tries code lengths 1, 2, 3, 4 in increasing order")
     # 7. surrogate pairs: decoding UTF-16 units as UTF-16BE
